@@ -23,6 +23,11 @@ def files(variant="main"):
     sub = G.new_file(subfile, subpkg)
     G.add_message(sub, "Extra", [G.F("e", 1, T.TYPE_STRING)])
     out.append(sub)
+    if variant == "subpackage":
+        # ... and a sub-package of that sub-package, whose message uses a type one level up
+        deep = G.new_file("acme/lab/v1/extras/deep/deeper.proto", PKG + ".extras.deep", deps=G.STD_DEPS + [subfile])
+        G.add_message(deep, "Deeper", [G.F("extra", 1, T.TYPE_MESSAGE, type_name="." + subpkg + ".Extra"), G.F("n", 2, T.TYPE_INT32)])
+        out.append(deep)
     fd = G.new_file("acme/lab/v1/lab.proto", PKG, deps=G.STD_DEPS + ["acme/lab/v1/status.proto", subfile, "google/rpc/status.proto"])
     col = fd.enum_type.add(name="Color")
     for n, v in (("COLOR_UNSPECIFIED", 0), ("RED", 1)):
@@ -152,7 +157,7 @@ def one_config(name):
     try:
         api, res = G.generate(files(name if name in ("subpackage", "dup_leaf", "kw_rpc") else "main"), params, service_yaml=yaml_, extra_dep_modules=(status_pb2, locations_pb2, policy_pb2))
     except Exception as e:      # noqa
-        return {"cases": 1, "failures": [dict(label, what="generation failed", error=repr(e)[:300], **({"known": "proto-sub-package"} if name == "subpackage" else {}))]}
+        return {"cases": 1, "failures": [dict(label, what="generation failed", error=repr(e)[:300])]}
     names = [f.name for f in res.file]
     for f in res.file:
         if f.name.endswith(".py"):
@@ -192,9 +197,6 @@ def one_config(name):
             pkg = importlib.import_module(top)
         except Exception as e:      # noqa
             failures.append(dict(label, what="the emitted package does not import", package=top, error=repr(e)[:300]))
-            if name == "subpackage":
-                for f in failures:
-                    f["known"] = "proto-sub-package"
             if name == "dup_leaf":
                 for f in failures:
                     if "duplicate argument" in json.dumps(f) or "keyword argument repeated" in json.dumps(f):
@@ -206,12 +208,19 @@ def one_config(name):
                 importlib.import_module(mi.name)
             except Exception as e:      # noqa
                 failures.append(dict(label, what="a sub-module does not import", module=mi.name, error=repr(e)[:300]))
-        # sub-package view
-        if name not in ("ads",):
+        # sub-package views: the types of the (nested) sub-packages are reachable and usable
+        if name == "subpackage":
+            n += 1
             try:
-                importlib.import_module(top + ".extras" if False else top)
+                ex_t = importlib.import_module(top + ".extras.types.extra")
+                dp_t = importlib.import_module(top + ".extras.deep.types.deeper")
+                d = dp_t.Deeper(extra=ex_t.Extra(e="x"), n=3)
+                if type(d).pb(d).DESCRIPTOR.full_name != "acme.lab.v1.extras.deep.Deeper" or d.extra.e != "x":
+                    failures.append(dict(label, what="message of a nested sub-package", full_name=type(d).pb(d).DESCRIPTOR.full_name))
+                if not hasattr(importlib.import_module(top + ".extras.deep"), "Deeper") or not hasattr(importlib.import_module(top + ".extras"), "Extra"):
+                    failures.append(dict(label, what="the sub-package's __init__ does not export its own types"))
             except Exception as e:      # noqa
-                failures.append(dict(label, what="sub-package does not import", error=repr(e)[:200]))
+                failures.append(dict(label, what="types of a (nested) proto sub-package are not importable / usable", error=repr(e)[:300]))
         for svc in ("Lab", "Uploader", "Admin"):
             n += 1
             client = getattr(pkg, svc + "Client", None) if name != "ads" else None
@@ -237,9 +246,6 @@ def one_config(name):
             want_default = f"{svc}GrpcTransport" if "grpc" in want_t else f"{svc}RestTransport"
             if default != want_default:
                 failures.append(dict(label, what="default transport is not gRPC-when-requested-else-REST", service=svc, default=default))
-    if name == "subpackage":
-        for f in failures:
-            f["known"] = "proto-sub-package"
     if name == "dup_leaf":
         for f in failures:
             if "duplicate argument" in json.dumps(f) or "keyword argument repeated" in json.dumps(f):
